@@ -25,12 +25,16 @@ NEG = [
     ("mem_stream_second_word", "begin push.4294967295 padw padw padw mem_stream end", []),
     ("mem_stream_2^32", "begin push.4294967296 padw padw padw mem_stream end", []),
     ("adv_pipe_second_word", "begin push.4294967295 padw padw padw adv_pipe end", [1, 2, 3, 4, 5, 6, 7, 8]),
+    ("rcomb_base_z_ptr_2^32", "begin push.1.2.3.4 mem_storew.50 dropw push.5.6.0.0 mem_storew.60 dropw push.9 push.60 push.4294967296 push.40 push.7.8.9.10 push.11.12.13.14.15.16.17.18 rcomb_base end", []),
+    ("rcomb_base_a_ptr_p-1", "begin push.1.2.3.4 mem_storew.50 dropw push.5.6.0.0 mem_storew.60 dropw push.9 push.18446744069414584320 push.50 push.40 push.7.8.9.10 push.11.12.13.14.15.16.17.18 rcomb_base end", []),
     ("call_in_loop_depth", "proc.f push.3 end begin push.1 while.true call.f push.0 end end", []),
 ]
 POS = [
     # same address in caller, callee (call), kernel (syscall): reads see the context's own last write
     ("isolation", "proc.f push.7 mem_store.5 mem_load.5 push.9 mem_store.6 drop end begin push.3 mem_store.5 call.f mem_load.5 mem_load.6 end", None),
     ("mem_stream_top", "begin push.11.12.13.14 mem_storew.4294967294 dropw push.21.22.23.24 mem_storew.4294967295 dropw push.4294967294 padw padw padw mem_stream end", None),
+    ("rcomb_base", "begin push.1.2.3.4 mem_storew.50 dropw push.5.6.0.0 mem_storew.60 dropw push.9 push.60 push.50 push.40 push.7.8.9.10 push.11.12.13.14.15.16.17.18 rcomb_base rcomb_base dropw dropw dropw dropw end", None),
+    ("rcomb_base_top", "begin push.1.2.3.4 mem_storew.50 dropw push.5.6.0.0 mem_storew.60 dropw push.9 push.4294967295 push.4294967294 push.40 push.7.8.9.10 push.11.12.13.14.15.16.17.18 rcomb_base dropw dropw dropw dropw end", None),
     ("locals_frames", "proc.g.2 push.5 loc_store.0 push.6 loc_store.1 loc_load.0 loc_load.1 add mem_store.20 end proc.f.1 push.9 loc_store.0 exec.g loc_load.0 mem_store.21 end begin exec.f exec.g call.f mem_load.20 mem_load.21 end", None),
 ]
 KPOS = ("syscall_root_memory",
